@@ -652,6 +652,40 @@ def main(argv=None) -> int:
     Lt = [list(t) for k in (4, 5) for t in itertools.permutations(triv, k)] if thorough else \
         [list(t) for t in itertools.permutations(triv[:6], 4)] + [list(t) for t in itertools.permutations(triv[:5], 5)]
     family('clt_', clause_chunk, [(ch, 3, 20) for ch in par.chunks(Lt, n)])
+    # four clauses over two variables, every order (a clause re-derived from its own descendants; index-0 effects)
+    L24 = [l for l in clause_lists(2, 4, 2) if len(l) == 4]
+    family('c24_', clause_chunk, [(ch, 3, 60) for ch in par.chunks(L24, n)])
+    family('a24_', resolution_alg_chunk, [(ch, 3) for ch in par.chunks(L24, n)])
+    # every unsatisfiable list over two variables with a common literal added to each clause, refuted by its negation:
+    # resolution steps where both parents keep literals and derived clauses repeat the common literal
+    base = [l for l in clause_lists(2, 3, 2) if l and clause_tt(l, 2) == 'unsat']
+    if not thorough:
+        # quick tier: one representative per set of clauses (the orders are covered on the unlifted lists above)
+        seen_sets, reps = set(), []
+        for l in base:
+            k = tuple(sorted(map(tuple, l)))
+            if k not in seen_sets:
+                seen_sets.add(k)
+                reps.append(l)
+        base = reps
+    Llift = []
+    for l in base:
+        up = [[(abs(x) + 1) * (1 if x > 0 else -1) for x in c] for c in l]
+        Llift.append([c + [1] for c in up] + [[-1]])
+        Llift.append([[-1]] + [[1] + c for c in up])
+        if thorough:
+            Llift.append([c + [1] for c in up[:1]] + [[-1]] + [[1] + c for c in up[1:]])
+    family('lift_', clause_chunk, [([l], 3, 1, False) for l in Llift])
+    # two clauses of three literals with a repeated literal, and a unit clause
+    seq3 = [list(t) for t in itertools.product((1, -1, 2), repeat=3)]
+    if not thorough:
+        seq3 = [t for t in seq3 if len(set(t)) == 2 and 2 in t]
+    Ldup = [[a, b, [u]] for a in seq3 for b in seq3 for u in ((-2, 2) if thorough else (-2,))]
+    if thorough:
+        # (each of these takes tens of seconds to build: clauses of three literals with repetitions)
+        family('dup3_', clause_chunk, [(ch, 3, 200) for ch in par.chunks(Ldup, n * 2)])
+    else:
+        Ldup = []
     L4 = [l for l in clause_lists(4, 3 if thorough else 2, 2)]
     family('cl4_', clause_chunk, [(ch, 4, 40) for ch in par.chunks(L4, n)])
     family('alg4_', resolution_alg_chunk, [(ch, 4) for ch in par.chunks(L4, n)])
@@ -666,7 +700,7 @@ def main(argv=None) -> int:
     chk.set('exhaustive', True)
     chk.set('detail', agg)
     chk.set('bounds', {'imp_leaves': leaves, 'imp_formulas': len(F), 'notation_connectives': conn, 'notation_formulas': len(G),
-                       'clause_lists_3vars': len(L3), 'fat_clause_lists': len(Lf), 'direct_stage_inputs': len(D), 'clause_seq_lists': len(Lr), 'clause_lists_4vars': len(L4)})
+                       'clause_lists_3vars': len(L3), 'four_clause_lists_2vars': len(L24), 'lifted_lists': len(Llift), 'repeated_literal_lists': len(Ldup), 'fat_clause_lists': len(Lf), 'direct_stage_inputs': len(D), 'clause_seq_lists': len(Lr), 'clause_lists_4vars': len(L4)})
     chk.sample({'formula': str(F[len(F) // 2])})
     chk.sample({'notation_formula': str(G[len(G) // 2])})
     chk.sample({'clause_list': L3[len(L3) // 2]})
